@@ -448,6 +448,11 @@ func (s *SendStream) SetReliableBoundary() {
 	s.mutex.Lock()
 	defer s.mutex.Unlock()
 
+	// Once the stream was reset (CancelWrite or STOP_SENDING), the reliable size is fixed:
+	// it was announced in (or zeroed for) the RESET_STREAM frame.
+	if s.resetErr != nil {
+		return
+	}
 	s.reliableSize = s.writeOffset
 	if s.nextFrame != nil {
 		s.reliableSize += s.nextFrame.DataLen()
